@@ -57,7 +57,7 @@ extern "C" __attribute__((used, visibility("default"))) const char *__asan_defau
 
 void SimHeap::init_arena() {
     if (arena) return;
-    size_t sz = (size_t)NCELLS * CELL;
+    size_t sz = (size_t)NCELLS * CELL + (size_t)NBIG * BIG;
     void *want = (void *)SIMHEAP_BASE;
     void *p = mmap(want, sz, PROT_READ | PROT_WRITE, MAP_PRIVATE | MAP_ANONYMOUS | MAP_FIXED_NOREPLACE, -1, 0);
     if (p == MAP_FAILED || p != want) {
@@ -65,22 +65,23 @@ void SimHeap::init_arena() {
         _exit(2);
     }
     arena = (uint8_t *)p;
-    for (int i = 0; i < NCELLS; ++i) mprotect(arena + (size_t)i * CELL + CELL_DATA, CELL_GUARD, PROT_NONE);
+    for (int i = 0; i < NCELLS + NBIG; ++i) mprotect(cell_base(i) + cell_data(i), CELL_GUARD, PROT_NONE);
 }
 
 void SimHeap::begin_run(uint64_t junk, Rng placement, EventLog *lg) {
     init_arena();
     end_run();
     blocks.clear(); issues.clear();
-    blocks.reserve(NCELLS + 8);     // never reallocates within a run: pointers to HeapBlock stay valid across library calls
-    cells_used = 0; cur_op = -1; fail_at = 0; allocs_in_op = frees_in_op = failed_in_op = 0;
+    blocks.reserve(NCELLS + NBIG + 8);     // never reallocates within a run: pointers to HeapBlock stay valid across library calls
+    cells_used = 0; big_used = 0; cur_op = -1; fail_at = 0; allocs_in_op = frees_in_op = failed_in_op = 0;
     junk_seed = junk; place_rng = placement; log = lg;
     active = true;
 }
 
 void SimHeap::end_run() {
     for (int i = 0; i < cells_used; ++i) mprotect(arena + (size_t)i * CELL, CELL_DATA, PROT_READ | PROT_WRITE);
-    cells_used = 0;
+    for (int i = 0; i < big_used; ++i) mprotect(cell_base(NCELLS + i), BIG_DATA, PROT_READ | PROT_WRITE);
+    cells_used = 0; big_used = 0;
     active = false;
 }
 
@@ -102,8 +103,24 @@ void *SimHeap::alloc(size_t n, bool zero, size_t align) {
         if (log) log->ev("heap.fail", cur_op, n);
         return nullptr;
     }
-    if (cells_used >= NCELLS || n > CELL_DATA - 256) {
-        issues.push_back({strf("simheap exhausted or oversize request (%zu bytes)", n), cur_op, -1});
+    if (n > CELL_DATA - 256) {
+        // a big block: placed so that it ends at the guard page; only its own bytes and a margin before it are junk-filled
+        if (big_used >= NBIG || n > BIG_DATA - 4096) { ++n_failed; if (log) log->ev("heap.nomem-big", cur_op, n); return nullptr; }     // the simulated machine is out of memory for requests of this size: a legitimate NULL, not a finding
+        int cell = NCELLS + big_used++;
+        uint8_t *data = cell_base(cell);
+        size_t al = align > 16 ? align : 16, off = (BIG_DATA - n) & ~(al - 1);
+        junk_fill(data + off - 256, n + 256 + (BIG_DATA - off - n), junk_seed ^ (uint64_t)cell * 0x9E3779B97F4A7C15ULL);
+        HeapBlock b;
+        b.id = (int)blocks.size(); b.base = data + off; b.size = n; b.cell = cell; b.live = true;
+        b.zeroed_contract = zero; b.alloc_op = cur_op; b.placement = PLACE_FLUSH;
+        if (zero) memset(b.base, 0, n);
+        blocks.push_back(b);
+        ++n_alloc;
+        if (log) log->ev("heap.alloc-big", cur_op, n, (uint64_t)(b.base - arena));
+        return b.base;
+    }
+    if (cells_used >= NCELLS) {
+        issues.push_back({strf("simheap exhausted (%zu bytes requested, %d cells in use)", n, cells_used), cur_op, -1});
         return nullptr;
     }
     int cell = cells_used++;
@@ -135,7 +152,8 @@ HeapBlock *SimHeap::find_live(const void *p) {
 }
 HeapBlock *SimHeap::find_any(const void *p) {
     if (!in_arena(p)) return nullptr;
-    int cell = (int)(((const uint8_t *)p - arena) / CELL);
+    size_t o = (size_t)((const uint8_t *)p - arena);
+    int cell = o < (size_t)NCELLS * CELL ? (int)(o / CELL) : NCELLS + (int)((o - (size_t)NCELLS * CELL) / BIG);
     for (auto &b : blocks) if (b.cell == cell) return &b;
     return nullptr;
 }
@@ -163,9 +181,10 @@ void SimHeap::release(void *p) {
     hit->live = false; hit->free_op = cur_op;
     ++n_free;
     if (log) log->ev("heap.free", cur_op, hit->id, hit->zero_at_free);
-    uint8_t *data = arena + (size_t)hit->cell * CELL;
-    junk_fill(data, CELL_DATA, ~junk_seed ^ (uint64_t)hit->cell);
-    mprotect(data, CELL_DATA, PROT_NONE);   // any later touch faults
+    uint8_t *data = cell_base(hit->cell);
+    if (hit->cell < NCELLS) junk_fill(data, CELL_DATA, ~junk_seed ^ (uint64_t)hit->cell);
+    else junk_fill(hit->base, hit->size, ~junk_seed ^ (uint64_t)hit->cell);
+    mprotect(data, cell_data(hit->cell), PROT_NONE);   // any later touch faults
 }
 
 void SimHeap::scan_nonzero() {
